@@ -9,9 +9,9 @@ cd $WT || exit 2
 git checkout -q -- . ; git apply $D/patch.diff || { echo "PATCH DOES NOT APPLY"; exit 2; }
 echo "== tests with change"; PYTHONPATH=$WT/src /venv/bin/python -m pytest -q -p no:cacheprovider --timeout=900 2>&1 | grep -E "passed|failed" | tail -1
 PYTHONPATH=$WT/src /venv/bin/python -c "import fst,sys; print('import from', fst.__file__)"
-echo "== demo with change"; /venv/bin/python $D/demo.py $WT > /tmp/demo_with.txt 2>&1; echo "exit $?"; tail -3 /tmp/demo_with.txt
+echo "== demo with change"; /venv/bin/python $D/demo.py $WT > /tmp/demo_with_$$.txt 2>&1; echo "exit $?"; tail -3 /tmp/demo_with_$$.txt
 git checkout -q -- .
-echo "== demo without change"; /venv/bin/python $D/demo.py $WT > /tmp/demo_without.txt 2>&1; echo "exit $?"; tail -2 /tmp/demo_without.txt
+echo "== demo without change"; /venv/bin/python $D/demo.py $WT > /tmp/demo_without_$$.txt 2>&1; echo "exit $?"; tail -2 /tmp/demo_without_$$.txt
 mkdir -p /verif/seeded/$ID; cp $D/patch.diff $D/demo.py $D/meta.json /verif/seeded/$ID/
 cd /verif
 if [ "${SEED_IN_REPO:-0}" = "1" ]; then
